@@ -16,11 +16,11 @@ CHECKS = {
          "Overlap of executions is made likely (barrier, K >= 10,000, oversubscription), not guaranteed; replay re-runs a configuration five times because schedules are not reproducible.",
          "DESIGN.md section 3, C18"),
  "C09": ("proptest over (VM kind, offset pairs, packet sequences, engine schedules) against an address oracle, one VM object driven through all three engines in a forked child",
-         "Probe programs expose r1, r10, stack usability, packet addressing and - for the fixed-metadata VM - the two stored pointers; the harness knows the real packet addresses and checks every execution of a generated schedule on interpreter, JIT and Cranelift. Load-free probes hand r1 to a registered helper that reads the context. For the fixed-metadata VM the probe is re-loaded half way through the schedule with set_program() and another pair of offsets (swapped / partly moved / moved). Exploration.",
+         "Probe programs expose r1, r10, stack usability, packet addressing and - for the fixed-metadata VM - the two stored pointers; the harness knows the real packet addresses and checks every execution of a generated schedule on interpreter, JIT and Cranelift; half of the later packets of a schedule start (or end) at the same address as their predecessor with another length. Load-free probes hand r1 to a registered helper that reads the context. For the fixed-metadata VM the probe is re-loaded half way through the schedule with set_program() and another pair of offsets (swapped / partly moved / moved). Exploration.",
          "Empty-packet start pointer is not compared (only end - start == 0).",
          "DESIGN.md section 3, C09"),
  "C10": ("model-based (stateful) property testing: generated API-call histories checked step by step against an abstract VM state machine, fork-isolated",
-         "Histories of up to 30 calls over load / verify / configure / compile / execute on all four VM kinds; the abstract machine predicts Ok/Err and the value of every step, using the reference model for program results; stale compiled code and state changes by failed calls are detected at the first observation that differs. Histories without packet-reading programs also execute with the empty packet. register_helper may bind an id to another function: after recompilation compiled code must call the new one. Exploration.",
+         "Histories of up to 30 calls over load / verify / configure / compile / execute on all four VM kinds; the abstract machine predicts Ok/Err and the value of every step, using the reference model for program results; stale compiled code and state changes by failed calls are detected at the first observation that differs. Histories without packet-reading programs also execute with the empty packet. The program of the fixed VM's largest layout also adds up the spare words of its buffer (zero after every load, whatever earlier programs of the VM left). register_helper may bind an id to another function: after recompilation compiled code must call the new one. Exploration.",
          "The 'default' verifier re-installed through set_verifier is the harness's reference verifier (the crate does not export its own).",
          "DESIGN.md section 3, C10"),
  "C02": ("proptest + exhaustive boundary windows of single-access probes against an exact address oracle, fork-isolated with PROT_NONE guard pages and canary arenas",
@@ -40,19 +40,19 @@ CHECKS = {
          "Budget exhaustion stands for 'keeps running'; the child process isolates crashes.",
          "DESIGN.md section 3, C05"),
  "C12": ("proptest crash + repeatability oracle: jit_compile / cranelift_compile twice in a forked child under catch_unwind, byte-identical JIT output through hook H2; thorough tier adds a coverage-guided libFuzzer campaign (cargo-fuzz, ASan) with the same oracle inside the target",
-         "Verifier-accepted near-valid strings, mutated structured programs, 32k-100k-instruction programs and the 1,000,000-instruction limit case are compiled twice by each compiler; the oracle is Ok/Err without panic or signal, equal verdicts, and identical JIT code bytes. Page-edge programs: the code size of every instruction form is measured through hook H2 and programs are built whose code ends just below / at / just above each page multiple. Exploration.",
+         "Verifier-accepted near-valid strings, mutated structured programs, 32k-100k-instruction programs and the 1,000,000-instruction limit case are compiled twice by each compiler; the oracle is Ok/Err without panic or signal, equal verdicts, and identical JIT code bytes. Page-edge programs: the code size of every instruction form is measured through hook H2 and programs are built whose code ends just below / at / just above each page multiple, for each of the four VM kinds (the prologue differs). Exploration.",
          "rbpf's own emit bounds assertion (debug assertions on) and process death detect overruns of the sized buffer; Cranelift code is not compared byte for byte.",
          "DESIGN.md section 3, C12"),
  "C01": ("proptest differential against an independent reference interpreter with definedness tracking (model-based oracle), fork-isolated",
-         "Structured programs over every opcode, register, immediate class, control-flow shape, VM kind and input are executed by the interpreter in a forked child and compared (value or error class, and every packet / metadata byte) with a reference interpreter written from the ISA statement; runs that depend on undefined state are discarded and counted. Long programs (32k/65k/100k+ instructions) are a separate stream. A deterministic instruction matrix (every opcode x every register pair x boundary operands, ~108,000 single-instruction tests) and a pair matrix (all ordered pairs of ~70 instruction forms, second instruction entered in sequence / by jump / by local call) complement the random programs, as do the call graphs of C07. Half of the VMs are created empty, configured first and loaded last. Exploration.",
+         "Structured programs over every opcode, register, immediate class, control-flow shape, VM kind and input are executed by the interpreter in a forked child and compared (value or error class, and every packet / metadata byte) with a reference interpreter written from the ISA statement; runs that depend on undefined state are discarded and counted. Long programs (32k/65k/100k+ instructions) are a separate stream. A deterministic instruction matrix (every opcode x every register pair x boundary operands, ~108,000 single-instruction tests) and a pair matrix (all ordered pairs of ~70 instruction forms, second instruction entered in sequence / by jump / by local call) complement the random programs, as do the call graphs of C07. A separate stream places one ldabs / ldind / ldx / stx, in bounds, far into a packet of 32-160 KiB (immediates and pointer advances around 2^15 and 2^16, 16-bit offsets down to -32768 and up to 32767) on the raw, metadata and fixed-metadata VMs; the expected value is the packet's own bytes at that position. A third of the VMs each: program given to new(); created empty, configured first and loaded last; program given to new(), configured, then the same program loaded again with set_program() (the configuration must survive a reload). Exploration.",
          "Trusts harness/vrun/src/model.rs; known finding I2 (zero-extended jump immediates) is excluded by its exact signature and reported as KNOWN-FINDING.",
          "DESIGN.md sections 2.1, 2.2, 3 C01"),
  "C03": ("proptest differential JIT vs interpreter under a model-checked premise, fork-isolated with guard-page buffers at identical addresses",
-         "The reference model filters the premise (terminates, defined, in bounds); interpreter and x86-64 JIT then run in the same forked child from identical buffers and are compared on the return value and every byte of packet and metadata; compile errors, panics, traps and crashes of the JIT on such programs are violations. The instruction matrix and pair matrix of C01 (second instruction entered in sequence, by jump and by local call) run through the same differential; helper calls are checked for stack alignment. Half of the VMs are created empty, configured first and loaded last. Exploration.",
+         "The reference model filters the premise (terminates, defined, in bounds); interpreter and x86-64 JIT then run in the same forked child from identical buffers and are compared on the return value and every byte of packet and metadata; compile errors, panics, traps and crashes of the JIT on such programs are violations. The instruction matrix and pair matrix of C01 (second instruction entered in sequence, by jump and by local call) run through the same differential; helper calls are checked for stack alignment. One fixed-metadata case in eight has overlapping pointer slots (same slot, or 1-7 bytes apart): the compilers must leave what the interpreter leaves there. The big-packet stream of C01 (accesses far into a packet of 32-160 KiB) runs through the same differential. A third of the VMs each: program given to new(); created empty, configured first and loaded last; program given to new(), configured, then the same program loaded again with set_program() (the configuration must survive a reload). Exploration.",
          "Premise classification trusts the model; watchdog hits are inconclusive; known finding I2 excluded by signature.",
          "DESIGN.md section 3, C03"),
  "C04": ("proptest differential Cranelift vs interpreter under a model-checked premise, plus a refusal oracle for programs with local calls",
-         "Equivalence as for C03 with cranelift_compile / execute_program_cranelift on programs without local calls; programs with an eBPF-to-eBPF call (with and without a registered helper whose id equals the displacement) must make cranelift_compile return Err. The instruction matrix and pair matrix of C01 (second instruction entered in sequence and by jump) run through the same differential. Half of the VMs are created empty, configured first and loaded last. Exploration.",
+         "Equivalence as for C03 with cranelift_compile / execute_program_cranelift on programs without local calls; programs with an eBPF-to-eBPF call (with and without a registered helper whose id equals the displacement) must make cranelift_compile return Err. The instruction matrix and pair matrix of C01 (second instruction entered in sequence and by jump) run through the same differential, as do the overlapping-slot cases of C03 and the big-packet stream of C01 (accesses far into a packet of 32-160 KiB). A third of the VMs each: program given to new(); created empty, configured first and loaded last; program given to new(), configured, then the same program loaded again with set_program() (the configuration must survive a reload). Exploration.",
          "Premise classification trusts the model; Cranelift compile time bounds the case count; known finding I2 excluded by signature.",
          "DESIGN.md section 3, C04"),
  "C08": ("proptest with instrumented helpers (assembly entry stubs recording rsp, shared-memory call log) against the reference model's call sequence, on all three engines",
